@@ -449,7 +449,13 @@ class Ctx:
         elif "ASSUME-FAIL" in out:
             verdict = None
         elif "ASSERT-FAIL" in out:
-            verdict = "assertion: " + out.split("ASSERT-FAIL", 1)[1].strip().splitlines()[0][:200]
+            nmsg = out.split("ASSERT-FAIL", 1)[1].strip().splitlines()[0][:200]
+            verdict = "assertion: " + nmsg
+            # an assertion-type counterexample must reproduce as the SAME assertion; a different
+            # native failure on the same input is reported under its own cbmc property, not this one
+            if ".assertion." in prop and nmsg.strip() not in descr:
+                verdict = None
+                out = "native run fails a different assertion (%s)\n" % nmsg + out
         elif "AddressSanitizer" in out:
             m = re.search(r"AddressSanitizer: (\S+)", out)
             verdict = "asan: " + (m.group(1) if m else "?")
